@@ -101,10 +101,24 @@ impl WorkerMonitor {
     /// Make a request.  Can be called by a mutator to request the workers to work towards the
     /// given `goal`.
     pub fn make_request(&self, goal: WorkerGoal) {
+        #[cfg(mmtk_verif)]
+        crate::util::verif::rt::event(crate::util::verif::rt::ev::ADD_ENTER, usize::MAX, 0, 0);
         let mut guard = self.sync.lock().unwrap();
         let newly_requested = guard.goals.set_request(goal);
+        #[cfg(mmtk_verif)]
+        crate::util::verif::rt::event(
+            crate::util::verif::rt::ev::GOAL_REQUEST,
+            goal as usize,
+            newly_requested as usize,
+            0,
+        );
         if newly_requested {
             self.notify_work_available(false);
+        }
+        #[cfg(mmtk_verif)]
+        {
+            drop(guard);
+            crate::util::verif::rt::event(crate::util::verif::rt::ev::ADD_EXIT, usize::MAX, 0, 0);
         }
     }
 
@@ -148,10 +162,28 @@ impl WorkerMonitor {
         );
 
         let mut should_wait = false;
+        #[cfg(mmtk_verif)]
+        crate::util::verif::rt::event(
+            crate::util::verif::rt::ev::WORKER_PARK,
+            ordinal,
+            sync.parker.parked_workers,
+            all_parked as usize,
+        );
 
         if all_parked {
             trace!("Worker {} is the last worker parked.", ordinal);
             let result = on_last_parked(&mut sync.goals);
+            #[cfg(mmtk_verif)]
+            crate::util::verif::rt::event(
+                crate::util::verif::rt::ev::LAST_PARKED,
+                ordinal,
+                match result {
+                    LastParkedResult::ParkSelf => 0,
+                    LastParkedResult::WakeSelf => 1,
+                    LastParkedResult::WakeAll => 2,
+                },
+                sync.goals.current().map(|g| g as usize + 1).unwrap_or(0),
+            );
             match result {
                 LastParkedResult::ParkSelf => {
                     should_wait = true;
@@ -226,6 +258,13 @@ impl WorkerMonitor {
 
         // Unpark this worker.
         sync.parker.dec_parked_workers();
+        #[cfg(mmtk_verif)]
+        crate::util::verif::rt::event(
+            crate::util::verif::rt::ev::WORKER_UNPARK,
+            ordinal,
+            sync.parker.parked_workers,
+            0,
+        );
         trace!(
             "Worker {} unparked.  parked/total: {}/{}.",
             ordinal,
@@ -242,6 +281,19 @@ impl WorkerMonitor {
         }
 
         Ok(())
+    }
+
+    /// (parked workers, total workers, has current goal, number of pending requests);
+    /// `None` if the monitor is locked.
+    #[cfg(mmtk_verif)]
+    pub fn verif_snapshot(&self) -> Option<(usize, usize, bool, usize)> {
+        let sync = self.sync.try_lock().ok()?;
+        Some((
+            sync.parker.parked_workers,
+            sync.parker.worker_count,
+            sync.goals.current().is_some(),
+            sync.goals.verif_pending_count(),
+        ))
     }
 
     /// Called when all workers have exited.
